@@ -86,7 +86,8 @@ type c12handle struct {
 	// was delivered after that write (plain asynchrony, no injected fault)
 	wLocalRace bool
 	ownWrite   map[string]int // key -> last notification seq that preceded the node's own latest write
-	delivered  map[string]int // notifications delivered, per subscriber
+	delivered  map[string]int // notifications whose delivery has started, per subscriber
+	applied    map[string]int // notifications whose callback has returned, per subscriber
 	da         *allocator.DistributedAllocator
 }
 
@@ -371,15 +372,22 @@ func (st *c12store) pump(w *c12watcher) {
 		if ev.delay > 0 {
 			s.Sleep(ev.delay)
 		}
+		if w.h.delivered != nil {
+			w.h.delivered[strings.TrimPrefix(ev.key, w.prefix)]++ // counted when delivery starts
+		}
 		if st.preGet != nil {
 			st.preGet(w, ev)
 		}
+		s.Logf("deliver n%d seq=%d %s deleted=%v %s", w.h.slot.idx, ev.seq, ev.key, ev.deleted, c12recPrefix(ev.val))
+		w.cb(ev.key, ev.val, ev.deleted)
+		if w.h.applied != nil {
+			w.h.applied[strings.TrimPrefix(ev.key, w.prefix)]++
+		}
 		if last, ok := w.h.ownWrite[ev.key]; ok && ev.seq <= last {
+			// applied after this node's own later write to the same key
 			w.h.wLocalRace = true
 			s.Probe("watch_notification_older_than_own_write")
 		}
-		s.Logf("deliver n%d seq=%d %s deleted=%v %s", w.h.slot.idx, ev.seq, ev.key, ev.deleted, c12recPrefix(ev.val))
-		w.cb(ev.key, ev.val, ev.deleted)
 		if st.onDeliver != nil {
 			st.onDeliver(w, ev)
 		}
